@@ -174,6 +174,33 @@ func lbvcReadImage(l *commitLog) (offs []int64, vals []string, err error) {
 	return offs, vals, nil
 }
 
+// lbvcReadEpochs: the leader epoch of every message the log holds, by offset
+func lbvcReadEpochs(l *commitLog) map[int64]uint64 {
+	out := map[int64]uint64{}
+	oldest, newest := l.OldestOffset(), l.NewestOffset()
+	if oldest < 0 || newest < 0 {
+		return out
+	}
+	r, err := l.NewReader(oldest, true)
+	if err != nil {
+		return out
+	}
+	hb := make([]byte, 28)
+	for i := 0; i < 1000; i++ {
+		ctx, cancel := context.WithTimeout(context.Background(), 30*time.Millisecond)
+		_, off, _, ep, err := r.ReadMessage(ctx, hb)
+		cancel()
+		if err != nil {
+			break
+		}
+		out[off] = ep
+		if off >= newest {
+			break
+		}
+	}
+	return out
+}
+
 // check one crash image; returns what is wrong, or ""
 func lbvcCheckImage(img *lbvcCrashImage, opts Options) (bad string) {
 	defer func() {
@@ -229,6 +256,25 @@ func lbvcCheckImage(img *lbvcCrashImage, opts Options) (bad string) {
 	}
 	if hw := l.HighWatermark(); hw > img.hw {
 		return fmt.Sprintf("%s: recovered high watermark %d is above the one before the crash (%d)", where, hw, img.hw)
+	}
+	// the leader-epoch history of the reopened log matches the messages it holds (append workload only: the other
+	// workloads trim the history on purpose): one more message of the newest epoch is appended, then for every epoch
+	// change in the log the end of the earlier epoch is where the later one's first message is
+	if strings.Contains(img.desc, "workload append") {
+		eps := lbvcReadEpochs(l)
+		if n := l.NewestOffset(); n >= 0 && len(eps) > 0 {
+			if _, err := l.Append([]*Message{{MagicByte: 1, Key: []byte("same"), Value: []byte("epoch"), Timestamp: 998, LeaderEpoch: eps[n]}}); err == nil {
+				eps[n+1] = eps[n]
+				img.completed[n+1] = "same=epoch"
+				for o := l.OldestOffset() + 1; o <= n+1; o++ {
+					if eps[o] > eps[o-1] {
+						if got := l.LastOffsetForLeaderEpoch(eps[o-1]); got != o {
+							return fmt.Sprintf("%s: in the reopened log epoch %d starts at offset %d (the message is there), but after one more append in that epoch the log answers %d for the end of epoch %d - the epoch of the message written last before the crash was not recorded", where, eps[o], o, got, eps[o-1])
+						}
+					}
+				}
+			}
+		}
 	}
 	// the reopened log must keep working: the next append gets a fresh offset and reads back
 	newest := l.NewestOffset()
